@@ -39,6 +39,7 @@ type schedTask struct {
 	gid    int64
 	// may-block steps (latch-held mode)
 	blocked bool
+	nyield  uint64 // free mode: hook points passed so far
 }
 
 // Sched runs a set of tasks under a schedule source.
@@ -56,6 +57,10 @@ type Sched struct {
 	Panic     string
 	StepLimit time.Duration
 	current   int
+	// free mode (RunFree): tasks are ordinary goroutines, nothing is serialized
+	free     bool
+	mu       sync.Mutex
+	FreeSeed uint64 // decides at which hook points a task yields the processor
 }
 
 func NewSched() *Sched {
@@ -87,6 +92,8 @@ func (s *Sched) Clock() int { return s.clock }
 
 // Tick advances the logical clock (used by loggers to time-stamp commits).
 func (s *Sched) Tick() int {
+	s.mu.Lock()
+	defer s.mu.Unlock()
 	s.clock++
 	return s.clock
 }
@@ -106,6 +113,10 @@ func (s *Sched) Yield(point string, block uint32) {
 		return
 	}
 	t := v.(*schedTask)
+	if s.free {
+		s.freeYield(t, point, block)
+		return
+	}
 	if point == "commit:mid-apply" && !s.LatchHeld {
 		return
 	}
@@ -117,9 +128,80 @@ func (s *Sched) Yield(point string, block uint32) {
 }
 
 func (s *Sched) record(e schedEvent) {
+	s.mu.Lock()
 	s.clock++
 	e.Clock = s.clock
 	s.Trace = append(s.Trace, e)
+	s.mu.Unlock()
+}
+
+// freeYield is the hook of free mode: protocol points are recorded with their logical
+// time (real-time order, under a mutex) and the task gives up the processor at a
+// pseudo-random subset of the points (also inside a block commit, where it widens the
+// window in which the latch is held).
+func (s *Sched) freeYield(t *schedTask, point string, block uint32) {
+	if point != "commit:mid-apply" && point != "body" {
+		s.record(schedEvent{Task: t.id, Point: point, Block: block})
+	}
+	t.nyield++
+	x := (s.FreeSeed ^ uint64(t.id+1)*0x9E3779B97F4A7C15) + t.nyield*0xBF58476D1CE4E5B9
+	x ^= x >> 31
+	x *= 0x94D049BB133111EB
+	x ^= x >> 29
+	switch x % 4 {
+	case 0:
+		runtime.Gosched()
+	case 1:
+		for i := (x >> 8) % 64; i > 0; i-- {
+			runtime.Gosched()
+		}
+	}
+}
+
+// RunFree starts every task as an ordinary goroutine (real parallelism, common start
+// barrier) and waits for all of them. It returns false if a task panicked or the tasks
+// did not all finish within limit (see Hang / Panic).
+func (s *Sched) RunFree(limit time.Duration) bool {
+	s.free = true
+	column.SetVerifHook(s.Yield)
+	defer column.SetVerifHook(nil)
+	start := make(chan struct{})
+	var wg sync.WaitGroup
+	for _, t := range s.tasks {
+		t := t
+		wg.Add(1)
+		ready := make(chan struct{})
+		go func() {
+			defer wg.Done()
+			t.gid = curGID()
+			s.byGID.Store(t.gid, t)
+			close(ready)
+			defer func() {
+				if r := recover(); r != nil {
+					buf := make([]byte, 1<<13)
+					buf = buf[:runtime.Stack(buf, false)]
+					s.mu.Lock()
+					s.Panic += fmt.Sprintf("task %d (%s): panic: %v\n%s\n", t.id, t.name, r, trimStack(string(buf)))
+					s.mu.Unlock()
+				}
+			}()
+			<-start
+			t.fn()
+		}()
+		<-ready
+	}
+	close(start)
+	done := make(chan struct{})
+	go func() { wg.Wait(); close(done) }()
+	select {
+	case <-done:
+	case <-time.After(limit):
+		s.mu.Lock()
+		s.Hang = fmt.Sprintf("the tasks did not all finish within %s under real parallelism (deadlock, or a task died holding a latch) ", limit)
+		s.mu.Unlock()
+		return false
+	}
+	return s.Panic == ""
 }
 
 // Run executes all tasks to completion under the schedule source. It returns
